@@ -929,13 +929,22 @@ func runClearsEverySlot(c *Ctx) {
 	}
 	n := 0
 	EachInstr(put, func(in ssa.Instruction) {
-		st, ok := in.(*ssa.Store)
-		if !ok {
+		var site ssa.Instruction
+		if st, ok := in.(*ssa.Store); ok {
+			if _, ok := st.Addr.(*ssa.IndexAddr); ok {
+				site = st
+			}
+		}
+		// the clear builtin over the buffer zeroes every slot at once
+		if call, ok := in.(*ssa.Call); ok {
+			if b, ok := call.Call.Value.(*ssa.Builtin); ok && b.Name() == "clear" && len(call.Call.Args) == 1 && loadsField(call.Call.Args[0], "itemBuf", "B") {
+				site = call
+			}
+		}
+		if site == nil {
 			return
 		}
-		if _, ok := st.Addr.(*ssa.IndexAddr); !ok {
-			return
-		}
+		st := site
 		n++
 		bad := ""
 		for _, g := range Guards(st) {
@@ -953,12 +962,23 @@ func runClearsEverySlot(c *Ctx) {
 // call sites (same package, bounded depth): an obligation "before the request ends" may be discharged by
 // the caller of an extracted helper. Returns the offending instruction or nil.
 func (w *World) mustPassUp(from ssa.Instruction, q PathQ, depth int) ssa.Instruction {
-	bad := q.From(from)
+	env := map[ssa.Value]bool{}
+	q1 := q
+	q1.GoalEnv = &env
+	bad := q1.From(from)
 	if bad == nil {
 		return nil
 	}
-	if _, isRet := bad.(*ssa.Return); !isRet || depth <= 0 {
+	ret, isRet := bad.(*ssa.Return)
+	if !isRet || depth <= 0 {
 		return bad
+	}
+	// boolean results whose value is known on this path (a flag set just before the return)
+	known := map[int]bool{}
+	for i, v := range retVals(ret) {
+		if k, ok := evalBool(v, env); ok {
+			known[i] = k
+		}
 	}
 	f := bad.Parent()
 	sites := 0
@@ -968,7 +988,28 @@ func (w *World) mustPassUp(from ssa.Instruction, q PathQ, depth int) ssa.Instruc
 			continue
 		}
 		sites++
-		if b := w.mustPassUp(site, q, depth-1); b != nil {
+		sv := site.Value()
+		q2 := q
+		inner := q.EdgeCond
+		q2.EdgeCond = func(cond ssa.Value, outcome bool) bool {
+			if sv != nil {
+				if cond == ssa.Value(sv) {
+					if k, ok := known[0]; ok && len(known) >= 1 && f.Signature.Results().Len() == 1 {
+						return outcome == k
+					}
+				}
+				if ex, ok := cond.(*ssa.Extract); ok && ex.Tuple == ssa.Value(sv) {
+					if k, ok := known[ex.Index]; ok {
+						return outcome == k
+					}
+				}
+			}
+			if inner != nil {
+				return inner(cond, outcome)
+			}
+			return true
+		}
+		if b := w.mustPassUp(site, q2, depth-1); b != nil {
 			return b
 		}
 	}
